@@ -297,6 +297,29 @@ pub fn record(seed: u64, thorough: bool, shards: usize, prefix: &str) -> Value {
             nontrivial += 1;
         }
     }
+    // styles WITHOUT effects and every subset of the three colour slots, for a few colours of each kind (constructor-shaped
+    // styles such as fg.on(bg) / fg.on_default() plus an underline colour)
+    {
+        let picks = [Color::Ansi(ANSI[1]), Color::Ansi(ANSI[12]), Color::Ansi256(Ansi256Color(9)), Color::Ansi256(Ansi256Color(200)), Color::Rgb(RgbColor(255, 128, 0)), Color::Rgb(RgbColor(100, 200, 255))];
+        for mask in 1..8u8 {
+            for (i, c) in picks.iter().enumerate() {
+                let d = picks[(i + 2) % picks.len()];
+                let e = picks[(i + 3) % picks.len()];
+                let mut st = Style::new();
+                if mask & 1 != 0 {
+                    st = st.fg_color(Some(*c));
+                }
+                if mask & 2 != 0 {
+                    st = st.bg_color(Some(d));
+                }
+                if mask & 4 != 0 {
+                    st = st.underline_color(Some(e));
+                }
+                emit(style_event(st, false));
+                nontrivial += 1;
+            }
+        }
+    }
     // every pair of named colours in the foreground and background slots (anything shared between the two slots shows
     // only in pairs of different brightness)
     for f in ANSI {
